@@ -62,15 +62,31 @@ type fixtValidator struct {
 func NewValidator(settings ValidatorSettings, appDataDictionary, transportDataDictionary *datadictionary.DataDictionary) Validator {
 	if transportDataDictionary != nil {
 		return &fixtValidator{
-			transportDataDictionary: transportDataDictionary,
+			transportDataDictionary: withHeaderAndTrailer(transportDataDictionary),
 			appDataDictionary:       appDataDictionary,
 			settings:                settings,
 		}
 	}
 	return &fixValidator{
-		dataDictionary: appDataDictionary,
+		dataDictionary: withHeaderAndTrailer(appDataDictionary),
 		settings:       settings,
 	}
+}
+
+// withHeaderAndTrailer returns d, or a copy of it in which a header or trailer section the specification file
+// does not have is an empty one: the validator looks header and trailer fields up there.
+func withHeaderAndTrailer(d *datadictionary.DataDictionary) *datadictionary.DataDictionary {
+	if d == nil || (d.Header != nil && d.Trailer != nil) {
+		return d
+	}
+	c := *d
+	if c.Header == nil {
+		c.Header = datadictionary.NewMessageDef("", "", nil)
+	}
+	if c.Trailer == nil {
+		c.Trailer = datadictionary.NewMessageDef("", "", nil)
+	}
+	return &c
 }
 
 // Validate tests the message against the provided data dictionary.
@@ -457,6 +473,10 @@ func validateField(d *datadictionary.DataDictionary,
 	case "FLOAT":
 		prototype = new(FIXFloat)
 
+	default:
+		// A type this switch does not list (LOCALMKTTIME, XID, ..., or one the dictionary made up): any
+		// text is a value of it.
+		prototype = new(FIXString)
 	}
 
 	if err := prototype.Read(field.value); err != nil {
